@@ -174,7 +174,7 @@ def run_doubles(ctx, quick):
     model = ctx.model("floatops")
     pairs = [(a, b) for a in SPECIALS for b in SPECIALS]
     nspecial = len(pairs)
-    pairs += rand_pairs(ctx.rng, 1500 if quick else 40000)
+    pairs += rand_pairs(ctx.rng, 1000 if quick else 30000)
     xs = [p[0] for p in pairs]
     ys = [p[1] for p in pairs]
     calls = [["c06ops.ap_%s" % nm, [xs, ys]] for nm, _ in BINOPS]
@@ -346,9 +346,9 @@ def gen_strings(rng, quick):
         S.append(" " + "1_" * (n // 2) + "1")
     # malformed stream
     alpha = "0123456789" * 2 + "__..eE+-  \t\x00xXninfatyINFAT １\x7f\x1c\xa0"
-    for _ in range(400 if quick else 20000):
+    for _ in range(300 if quick else 20000):
         S.append("".join(rng.choice(alpha) for _ in range(rng.randrange(1, 12))))
-    for _ in range(300 if quick else 8000):
+    for _ in range(200 if quick else 8000):
         # mutated valid numbers
         b = list(rng.choice(signs) + rng.choice(bases))
         for _ in range(rng.randrange(1, 3)):
@@ -502,9 +502,9 @@ def run_strings(ctx, quick, asan_ok):
     clean = [s for s, m in zip(strs, m_str) if m not in ("OOBW", "OOBR") and not s.isascii()]
     clean = sorted(clean, key=len, reverse=True)[:25] + ctx.rng.sample(clean, min(len(clean), 60 if quick else 600))
     oob = sorted(oob, key=len)
-    if len(oob) > (6 if quick else 60):
+    if len(oob) > (5 if quick else 60):
         # shortest (stack buffer), longest (heap buffer) and a sample
-        k = 6 if quick else 60
+        k = 5 if quick else 60
         oob = oob[:2] + oob[-2:] + ctx.rng.sample(oob[2:-2], k - 4)
     ar = asan_calls(os.path.join(ctx.workdir, "asan"), oob + clean)
     for i, (s, r) in enumerate(zip(oob + clean, ar)):
